@@ -351,6 +351,26 @@ func wrapRunAt(t *testing.T, p *world.PKI, cc cfgCase, clientSends bool, ops str
 				if peerLast != nil {
 					w.Push(y.Addr, x.Addr, peerLast)
 				}
+			case 'e':
+				// export the session (through the serialised form) and continue on an imported connection
+				st, ok := x.Conn.ConnectionState()
+				if !ok {
+					continue
+				}
+				bin, merr := st.MarshalBinary()
+				var st2 dtls.State
+				if merr != nil || st2.UnmarshalBinary(bin) != nil {
+					continue
+				}
+				x.Detach()
+				nx, rerr := x.ResumeFrom(p, &st2)
+				if rerr != nil {
+					o.Class = "export-import-refused: " + rerr.Error()
+					continue
+				}
+				hs := nx.StartResumedHandshake()
+				_ = n.Pump(2*time.Second, hs.Done)
+				x = nx
 			}
 			if op != nil {
 				_ = n.Pump(10*time.Second, op.Done)
@@ -528,6 +548,9 @@ func TestC09(t *testing.T) {
 				}
 			}
 			wrapOps := []string{"wwww", "wrw", "wwrw", "wxw", "wwx", "rww"}
+			if !cc.v.V13 {
+				wrapOps = append(wrapOps, "wwew", "wew", "ewww") // e = export / import in between (DTLS 1.2 state export)
+			}
 			if cc.v.V13 {
 				wrapOps = append(wrapOps, "wkw", "wwkw", "kww", "wwk", "wkrw")
 			}
